@@ -285,6 +285,16 @@ func run(c *runner.Ctx) {
 				}
 				checkFile(c, long, desc+" [90 KB line and a bodyless func first]", annotated, via)
 			}
+			// the headers real generated files carry (versions list, licence comment in front, build constraint)
+			if idx%4 == 2 {
+				gh := inject.GeneratedHeaders[int(idx/4)%len(inject.GeneratedHeaders)]
+				gsrc := inject.File(gh, append(append([]string{}, decls...), emb))
+				via := ""
+				if cli != "" && idx%32 == 2 {
+					via = "-f"
+				}
+				checkFile(c, gsrc, desc+" [generated-file header]", annotated, via)
+			}
 			if idx%16 == 7 {
 				checkFile(c, src, desc+" [through a symbolic link]", annotated, "link")
 				if cli != "" {
